@@ -1213,3 +1213,82 @@ func TestTwoTransports(t *testing.T) {
 		return checkTwoTransports(c)
 	}, func(c twoCase) bool { return len(c.Segs[0])+len(c.Segs[1]) >= 1 })
 }
+
+// ---- Close right after Send, with data still in flight --------------------------------------------------------
+//
+// Send returning success means the payload is on its way; closing the transport afterwards must not take it
+// back. The client dials with the library's own Connect, sends several maximal frames and closes at once, while
+// the peer reads slowly (the pauses only shape the schedule: they keep data in flight at the moment of Close;
+// no verdict depends on them). The peer must receive every frame intact and then the end of the stream.
+
+type closeCase struct {
+	Frames int `json:"frames"`
+	Len    int `json:"payload_len"`
+	PaceMs int `json:"peer_pause_ms_per_frame"`
+}
+
+func checkSendThenClose(c closeCase) []vf.Finding {
+	ln, err := net.Listen("tcp", "127.0.0.1:0")
+	if err != nil {
+		return []vf.Finding{vf.F("harness", "cannot-listen", "%v", err)}
+	}
+	defer ln.Close()
+	type res struct {
+		got  int
+		bad  string
+		last error
+	}
+	ch := make(chan res, 1)
+	go func() {
+		conn, err := ln.Accept()
+		if err != nil {
+			ch <- res{last: err}
+			return
+		}
+		defer conn.Close()
+		srv := nbt.NewNBTTransportFromConn(conn)
+		var r res
+		for {
+			time.Sleep(time.Duration(c.PaceMs) * time.Millisecond)
+			conn.SetReadDeadline(time.Now().Add(20 * time.Second))
+			m, err := srv.Receive()
+			if err != nil {
+				r.last = err
+				break
+			}
+			if !bytes.Equal(m, payload(c.Len, byte(r.got+1))) && r.bad == "" {
+				r.bad = fmt.Sprintf("frame %d: %d bytes, not the payload that was sent", r.got, len(m))
+			}
+			r.got++
+		}
+		ch <- r
+	}()
+	cl := nbt.NewNBTTransport()
+	addr := ln.Addr().(*net.TCPAddr)
+	if err := cl.Connect(addr.IP, addr.Port); err != nil {
+		return []vf.Finding{vf.F("harness", "cannot-connect", "%v", err)}
+	}
+	for i := 0; i < c.Frames; i++ {
+		if _, err := cl.Send(payload(c.Len, byte(i+1))); err != nil {
+			cl.Close()
+			<-ch
+			return []vf.Finding{vf.F("NBTTransport.Send", "frameable-payload-refused", "tcp frame %d len %d: %v", i, c.Len, err)}
+		}
+	}
+	cl.Close()
+	r := <-ch
+	if r.bad != "" {
+		return []vf.Finding{vf.F("NBTTransport", "send-receive-not-identity", "%s", r.bad)}
+	}
+	if r.got != c.Frames {
+		return []vf.Finding{vf.F("NBTTransport.Close", "sent-payloads-lost-at-close", "%d frames of %d bytes were sent successfully and the transport closed; the peer received %d, then: %v", c.Frames, c.Len, r.got, r.last)}
+	}
+	return nil
+}
+
+func TestSendThenClose(t *testing.T) {
+	s := vf.Begin(t, P, "send-then-close")
+	vf.Rapid(s, vf.N(12, 120), func(t *rapid.T) closeCase {
+		return closeCase{Frames: rapid.IntRange(2, 10).Draw(t, "frames"), Len: rapid.SampledFrom([]int{0x1FFFF, 0x10000, 70000, 0x1FFFF}).Draw(t, "len"), PaceMs: rapid.IntRange(1, 12).Draw(t, "pace")}
+	}, checkSendThenClose, func(c closeCase) bool { return c.Frames*c.Len > 300000 })
+}
